@@ -4,10 +4,10 @@ LEVEL = "proof"
 
 def check(rep, tier):
     from contracts import core_backward, core_outgrads, tracer_primitive, core_rules
-    core_backward.run_proof(rep, tier)
-    core_backward.run_bounded(rep, tier)
-    core_outgrads.run(rep, tier, only=("AO-value", "AO-dense", "AO-inductive"))
-    tracer_primitive.run(rep, tier, only=("W4", "W2", "W3"))
-    core_rules.run(rep, tier, parts=("nodes", "defjvp", "defvjp", "defvjp_argnum"))
+    rep.run(core_backward.run_proof, rep, tier)
+    rep.run(core_backward.run_bounded, rep, tier)
+    rep.run(core_outgrads.run, rep, tier, only=("AO-value", "AO-dense", "AO-inductive"))
+    rep.run(tracer_primitive.run, rep, tier, only=("W4", "W2", "W3"))
+    rep.run(core_rules.run, rep, tier, parts=("nodes", "defjvp", "defvjp", "defvjp_argnum"))
     from contracts import tracer_trace
-    tracer_trace.run(rep, tier, only=("TR-result", "TR-start"))
+    rep.run(tracer_trace.run, rep, tier, only=("TR-result", "TR-start"))
